@@ -30,6 +30,7 @@ type Engine struct {
 	hostTable    map[string]string
 	locationType types.Type
 	thorough     bool
+	noMerge      bool
 	loadSecs     float64
 }
 
